@@ -34,6 +34,7 @@ type c02Machine struct {
 	last      gonnx.Tensors
 	lastOuts  gonnx.Tensors
 	held      []heldOutput
+	returned  map[tensor.Tensor]bool // every tensor object any Run has handed out (never trimmed)
 	history   []string
 	lastFail  bool
 	flags     map[string]bool
@@ -149,6 +150,10 @@ func (mc *c02Machine) step(rt *rapid.T, label string, feed gonnx.Tensors) {
 		for _, k := range sortedKeys(rr.outs) {
 			if t := rr.outs[k]; t != nil {
 				mc.held = append(mc.held, heldOutput{stepNo, k, t, snap(t)})
+				if mc.returned == nil {
+					mc.returned = map[tensor.Tensor]bool{}
+				}
+				mc.returned[t] = true
 			}
 		}
 		if len(mc.held) > 12 {
@@ -186,12 +191,10 @@ func (mc *c02Machine) actions(rt *rapid.T) map[string]func(*rapid.T) {
 			// new values and passes them again
 			for _, k := range sortedKeys(mc.last) {
 				t := mc.last[k]
-				isOutput := false
-				for _, h := range mc.held {
-					if h.t == t {
-						isOutput = true // an output object that was fed back is not the caller's to refill
-					}
-				}
+				// an output object that was fed back is not the caller's to refill: results may share
+				// storage with the model (a Constant's value, a pass-through initializer), and what
+				// a caller does to a returned tensor is outside the statement
+				isOutput := mc.returned[t]
 				if t == nil || isOutput || t.Dtype() != tensor.Float32 {
 					continue
 				}
